@@ -26,6 +26,7 @@ fn expr_cfg() -> ExprCfg {
         radix: true,
         bad_random_bounds: false,
         lazy_hazards: true,
+        lazy_unassigned: true,
         odd_shifts: true,
         full_parens: false,
     }
@@ -74,7 +75,7 @@ impl Property for C08 {
         "C08"
     }
     fn rule(&self) -> &'static str {
-        "profile `expr`: straight-line programs `let`s + 8 rows `0 X X (expr)`; expression trees of depth <= 6 over all 16 binary and 3 unary operators, ite, literals in every radix, variables bound to 64-bit boundary values, device outputs (boundary palette), equal-precedence chains, boundary shift counts, hazards only in unselected ite branches; printed with minimal parentheses by the stated precedence table or redundant groups. Oracle: independent evaluator on the generating tree vs the untruncated expected value of a 64-bit output column. Non-trivial: an expression with >= 3 operators spanning >= 2 precedence levels, or an equal-precedence non-commutative chain, or unary under binary; distinct by source text."
+        "profile `expr`: straight-line programs `let`s + 8 rows `0 X X (expr)`; expression trees of depth <= 6 over all 16 binary and 3 unary operators, ite, literals in every radix, variables bound to 64-bit boundary values, device outputs (boundary palette), equal-precedence chains, boundary shift counts, hazards only in unselected ite branches (division by zero, signExt, random, and a variable that is bound only in a `while(0)` body and so has no value at run time); printed with minimal parentheses by the stated precedence table or redundant groups. Oracle: independent evaluator on the generating tree vs the untruncated expected value of a 64-bit output column. Non-trivial: an expression with >= 3 operators spanning >= 2 precedence levels, or an equal-precedence non-commutative chain, or unary under binary; distinct by source text."
     }
     fn cases(&self, tier: Tier) -> u64 {
         match tier {
@@ -86,7 +87,7 @@ impl Property for C08 {
         [700, 8, 8]
     }
     fn required_classes(&self) -> Vec<&'static str> {
-        vec!["chain", "unary-under-binary", "levels>=3", "lazy-hazard", "device-read", "radix-nondecimal", "level-1", "level-2", "level-3", "level-4", "level-5", "level-6", "level-7", "level-8"]
+        vec!["chain", "unary-under-binary", "levels>=3", "lazy-hazard", "lazy-unassigned-variable", "device-read", "radix-nondecimal", "level-1", "level-2", "level-3", "level-4", "level-5", "level-6", "level-7", "level-8"]
     }
     fn assumptions(&self) -> Vec<&'static str> {
         vec!["the evaluator in harness/src/ri.rs (eval_binop/eval_unop/eval_expr) renders the C08 statement correctly"]
@@ -107,7 +108,9 @@ impl Property for C08 {
         let spec = DriverSpec { constant: true, ..DriverSpec::honest(&sigs, Ch::new(&s[2]).u64(), Palette::Boundary) };
         // variables
         let nvars = ch.upto(5);
-        let mut stmts = vec![];
+        // `nvz` is a variable for the parser but never gets a value: it only occurs in
+        // unselected ite branches
+        let mut stmts = vec![Stmt::While(Expr::lit(0), vec![Stmt::Let(LAZY_UNASSIGNED.into(), Expr::lit(1))])];
         let mut vars: Vec<(String, bool)> = vec![];
         let mut values: BTreeMap<String, i64> = BTreeMap::new();
         for name in ["a", "b", "c", "d", "x1"].iter().take(nvars) {
@@ -160,6 +163,7 @@ impl Property for C08 {
                     }
                 }
                 Expr::Var(n) if n == "Q" || n == "R" => out.class("device-read"),
+                Expr::Var(n) if n == LAZY_UNASSIGNED => out.class("lazy-unassigned-variable"),
                 Expr::Lit(_, r) if *r != Radix::Dec => out.class("radix-nondecimal"),
                 _ => {}
             });
